@@ -330,7 +330,11 @@ def execute(plan):
             elif k == "mask_arr":
                 g = np.random.Generator(np.random.PCG64(op["seed"]))
                 mk = g.random(ifg.data.shape) < op["keep"]
+                mk0 = mk.copy()
                 ifg.mask(mk)
+                if not np.array_equal(mk, mk0):
+                    viol("arg-mutated", i, k, bits, what="the mask array passed to mask() was modified")
+                    mk = mk0
                 mdl.valid = mdl.valid & mk
                 bump(faults, "dropout_injection")
             elif k == "mask_r":
